@@ -37,12 +37,14 @@ Definition flags_of_wopts (w : Requireness.wopts) : Z :=
   bit_if (negb (Requireness.w_disallow_unknown w)) NF_ALLOW_UNKNOWN + bit_if (Requireness.w_require w) NF_WRITE_REQUIRE +
   bit_if (Requireness.w_default w) NF_WRITE_DEFAULT + bit_if (Requireness.w_optional w) NF_WRITE_OPTIONAL.
 
-(* the nine options toFlags looks at, in the order the harness numbers them (bit i of the case's first field):
+(* the ten options toFlags looks at, in the order the harness numbers them (bit i of the case's first field):
    0 WriteDefaultField, 1 DisallowUnknownField, 2 EnableValueMapping, 3 EnableHttpMapping, 4 String2Int64, 5 WriteRequireField,
-   6 NoBase64Binary, 7 WriteOptionalField, 8 ReadHttpValueFallback.  The word they must produce: *)
+   6 NoBase64Binary, 7 WriteOptionalField, 8 ReadHttpValueFallback, 9 TracebackRequredOrRootFields.
+   F_TRACE_BACK (unset required / root-level fields are handed back to Go) is wanted by ReadHttpValueFallback, and by
+   TracebackRequredOrRootFields when http mapping is on (repair of finding 1711).  The word they must produce: *)
 Definition nflags_of_bits (b : Z) : Z :=
   bit_if (Z.testbit b 0) NF_WRITE_DEFAULT + bit_if (negb (Z.testbit b 1)) NF_ALLOW_UNKNOWN + bit_if (Z.testbit b 2) NF_VALUE_MAPPING +
   bit_if (Z.testbit b 3) NF_HTTP_MAPPING + bit_if (Z.testbit b 4) NF_STRING_INT + bit_if (Z.testbit b 5) NF_WRITE_REQUIRE +
-  bit_if (Z.testbit b 6) NF_NO_BASE64 + bit_if (Z.testbit b 7) NF_WRITE_OPTIONAL + bit_if (Z.testbit b 8) NF_TRACE_BACK.
+  bit_if (Z.testbit b 6) NF_NO_BASE64 + bit_if (Z.testbit b 7) NF_WRITE_OPTIONAL + bit_if (Z.testbit b 8 || (Z.testbit b 3 && Z.testbit b 9)) NF_TRACE_BACK.
 Definition native_flag_list : list Z :=
   [NF_ALLOW_UNKNOWN; NF_WRITE_DEFAULT; NF_VALUE_MAPPING; NF_HTTP_MAPPING; NF_STRING_INT; NF_WRITE_REQUIRE; NF_NO_BASE64; NF_WRITE_OPTIONAL; NF_TRACE_BACK].
